@@ -6,6 +6,67 @@ use rustc_hir::def::DefKind;
 use rustc_middle::mir::{self, TerminatorKind};
 use rustc_middle::ty::{self, TyCtxt};
 
+fn const_bits<'tcx>(tcx: TyCtxt<'tcx>, did: rustc_hir::def_id::DefId, op: &mir::Operand<'tcx>) -> Option<u128> {
+    if let mir::Operand::Constant(c) = op {
+        let env = ty::TypingEnv::post_analysis(tcx, did);
+        return c.const_.try_eval_scalar_int(tcx, env).map(|s| s.to_bits_unchecked());
+    }
+    None
+}
+
+/// Boolean locals of one block whose value follows from constants alone.
+fn block_bools<'tcx>(
+    tcx: TyCtxt<'tcx>,
+    did: rustc_hir::def_id::DefId,
+    data: &mir::BasicBlockData<'tcx>,
+) -> std::collections::HashMap<mir::Local, Option<bool>> {
+    let mut m: std::collections::HashMap<mir::Local, Option<bool>> = Default::default();
+    for st in &data.statements {
+        if let mir::StatementKind::Assign(b) = &st.kind {
+            let (place, rv) = &**b;
+            let Some(l) = place.as_local() else { continue };
+            let mut val = None;
+            if let mir::Rvalue::BinaryOp(op, ops) = rv {
+                let (x, y) = &**ops;
+                let lk = |o: &mir::Operand<'tcx>| -> Option<bool> {
+                    match o {
+                        mir::Operand::Copy(p) | mir::Operand::Move(p) => {
+                            p.as_local().and_then(|l| m.get(&l).copied().flatten())
+                        }
+                        _ => const_bits(tcx, did, o).map(|b| b != 0),
+                    }
+                };
+                match op {
+                    mir::BinOp::Eq | mir::BinOp::Ne => {
+                        if let (Some(a), Some(b)) = (const_bits(tcx, did, x), const_bits(tcx, did, y)) {
+                            val = Some((a == b) == matches!(op, mir::BinOp::Eq));
+                        }
+                    }
+                    mir::BinOp::BitAnd => {
+                        let (a, b) = (lk(x), lk(y));
+                        if a == Some(false) || b == Some(false) {
+                            val = Some(false);
+                        } else if a == Some(true) && b == Some(true) {
+                            val = Some(true);
+                        }
+                    }
+                    mir::BinOp::BitOr => {
+                        let (a, b) = (lk(x), lk(y));
+                        if a == Some(true) || b == Some(true) {
+                            val = Some(true);
+                        } else if a == Some(false) && b == Some(false) {
+                            val = Some(false);
+                        }
+                    }
+                    _ => {}
+                }
+            }
+            m.insert(l, val);
+        }
+    }
+    m
+}
+
 pub fn collect<'tcx>(tcx: TyCtxt<'tcx>) -> J {
     let mut out = vec![];
     for def in tcx.hir_body_owners() {
@@ -51,8 +112,19 @@ pub fn collect<'tcx>(tcx: TyCtxt<'tcx>) -> J {
                     }
                     calls.push(c);
                 }
-                TerminatorKind::Assert { msg, .. } => {
+                TerminatorKind::Assert { msg, cond, expected, .. } => {
                     let mut a = J::obj();
+                    // the condition folded over the constants of this block
+                    // (`Eq(const 3, const 0)`, `BitAnd(false, _)`): an assert
+                    // whose condition is statically `expected` cannot fire
+                    let known = block_bools(tcx, did, data);
+                    let cv = match cond {
+                        mir::Operand::Copy(p) | mir::Operand::Move(p) => {
+                            p.as_local().and_then(|l| known.get(&l).copied().flatten())
+                        }
+                        _ => None,
+                    };
+                    a.put("never_fires", J::Bool(cv == Some(*expected)));
                     a.put("sp", span_j(tcx, term.source_info.span));
                     a.put("x", J::Bool(term.source_info.span.from_expansion()));
                     a.put("expn", expn_j(term.source_info.span));
